@@ -527,19 +527,27 @@ func Active(sc *Scenario) map[uint64]*discovery.SDTargets {
 }
 
 // ExploreFn builds the explorer lookup of a scenario.
-func ExploreFn(sc *Scenario) func(uint64) *target.ScrapeStatus {
+// scriptedExplorer stands in for the explorer of one coordinator process.  Like the real one it is ONE long-lived object
+// that hands out the SAME status object for a target on every call and in every cycle; when the scripted answer for a
+// target changes between two cycles of a history the object is updated in place (as a finished probe does), when it
+// does not change the object stays as it is - including whatever the coordinator wrote into it.
+type scriptedExplorer struct {
+	mu    sync.Mutex
+	cache map[uint64]*target.ScrapeStatus
+	spec  map[uint64]string
+}
+
+func newScriptedExplorer() *scriptedExplorer {
+	return &scriptedExplorer{cache: map[uint64]*target.ScrapeStatus{}, spec: map[uint64]string{}}
+}
+
+// ExploreFn returns the explorer's answer function for the cycle described by sc.
+func (e *scriptedExplorer) ExploreFn(sc *Scenario) func(uint64) *target.ScrapeStatus {
 	m := map[uint64]*TargetSpec{}
 	for i := range sc.Targets {
 		m[sc.Targets[i].Hash] = &sc.Targets[i]
 	}
-	// like the real explorer, hand out the SAME status object for a target on every call
-	cache := map[uint64]*target.ScrapeStatus{}
-	var mu sync.Mutex
-	build := func(h uint64) *target.ScrapeStatus {
-		t := m[h]
-		if t == nil || t.Explore == "none" {
-			return nil
-		}
+	build := func(t *TargetSpec) *target.ScrapeStatus {
 		switch t.Explore {
 		case "unknown":
 			return target.NewScrapeStatus(0, 0)
@@ -554,13 +562,24 @@ func ExploreFn(sc *Scenario) func(uint64) *target.ScrapeStatus {
 		return s
 	}
 	return func(h uint64) *target.ScrapeStatus {
-		mu.Lock()
-		defer mu.Unlock()
-		if s, ok := cache[h]; ok {
+		e.mu.Lock()
+		defer e.mu.Unlock()
+		t := m[h]
+		if t == nil || t.Explore == "none" {
+			delete(e.cache, h)
+			delete(e.spec, h)
+			return nil
+		}
+		key := fmt.Sprintf("%s/%d/%d", t.Explore, t.Series, t.Total)
+		if s, ok := e.cache[h]; ok {
+			if e.spec[h] != key {
+				*s = *build(t)
+				e.spec[h] = key
+			}
 			return s
 		}
-		s := build(h)
-		cache[h] = s
+		s := build(t)
+		e.cache[h], e.spec[h] = s, key
 		return s
 	}
 }
@@ -634,8 +653,9 @@ func ExecSeq(scs []*Scenario) []*Transcript {
 	// the explorer is one long-lived object: its status objects persist across cycles for targets
 	// whose answer does not change
 	explorers := make([]func(uint64) *target.ScrapeStatus, len(scs))
+	exp := newScriptedExplorer()
 	for k := range scs {
-		explorers[k] = ExploreFn(scs[k])
+		explorers[k] = exp.ExploreFn(scs[k])
 	}
 	setCycle := func(k int) {
 		cur.Lock()
